@@ -314,6 +314,10 @@ def parse_bad(v):
 
 def relevant(pid, cfg, b):
     if b["kind"] in ("PROPFAIL", "KNOWN"):
+        # shared_predicates: (tag, command) pairs of another property whose predicate this property's statement also
+        # demands (C09: the Config -> schedule wiring judged by C08's config_wiring predicate on cfgsched lines)
+        if b["kind"] == "PROPFAIL" and [b["tag"], b["cmd"]] in [list(x) for x in cfg.get("shared_predicates", [])]:
+            return True
         return b["tag"] == pid
     if b["kind"] == "MISMATCH" and b["tag"] == "driver-timeout":
         return True
